@@ -17,18 +17,21 @@ Not proved here (listed explicitly):
   hypotheses under which it is true (no macro value contains `$`; no macro use is directly
   followed by another `$`), and `macros_adjacent_counterexample` / the chained-value reading
   show that neither can be dropped for the code as it is (sequential passes);
-* Text front end — what is covered by a THEOREM and what by the differential stream only:
-  - theorem, character level: macro substitution (`macro_pass_tokenwise`, `macros_tokenwise`);
-    parsing of every SOURCE operand form `Rn`, `-5`, `LABEL`, `@a`, `@a[Rn]`, `@a[5]`,
-    `@a[Rn:Rm]`, `@a[Rn:3]`, `@a[2:Rm]`, `@a[2:3]` (`source_operand_text_roundtrip`, on C17's model
-    `Text.parseOperand` of `_parse_operand`/`parse_address`/`_parse_value`, which C17's stream ties
-    to the code); whole lines and programs in ASSEMBLED form (no labels, args, macros; register
-    indices only) by C17 `parse_print`;
-  - stream only (`parse_text_protosubroutine (render P) = P`, `asm.words`, `asm.splitbracket`,
-    `asm.macros` in checks/c03.py): the tokeniser `group_by_word` with `instr(args)` brackets,
-    `_split_instr_and_args` / `_parse_args`, label-definition lines, comments and blank lines,
-    the preamble (`NETQASM`, `APPID`, `DEFINE` with `{…}` values), templates, and the
-    composition of these steps into `parse_text_protosubroutine`.
+* Text front end (`parse_text_protosubroutine`; model `AsmFront.parseTextProto`, tied by the
+  differential stream `asm.parsetext`: equal proto-subroutine or same error class on rendered
+  programs with random comments, blank lines, preambles, argument brackets and malformed forms):
+  - THEOREMS: `parse_render_program` — for every proto program (labels, instructions with bracketed
+    arguments, every source operand form) the text `# NETQASM v.w` / `# APPID n` / one command per
+    line, with blank and comment-only lines interleaved ANYWHERE (`Padded`), is parsed into exactly
+    (version, app id, program); this covers `_split_preamble_body`, `_parse_preamble` and its
+    checks on these preambles, the tokeniser `group_by_word` with `instr(args)`, `_split_of_bracket`,
+    `_parse_args`, label lines, operand parsing, `_parse_netqasm_version`.  `text_assemble_simulates`
+    composes it with `assemble_simulates_run`.  Macros: `macros_tokenwise` (substitution) and
+    `parse_render_with_macros` (body level: the substituted body is read back).
+  - STREAM ONLY: indentation and comments AFTER a command on the same line, other orders / repeated
+    or malformed preamble lines and every error class, `DEFINE` lines with `{…}` values in the
+    preamble of the whole-text theorem (the macro theorems start from the macro list), templates
+    `{x}`, other whitespace than blanks inside argument brackets.
 * `scratch_not_named` / `AgreeOutsideScratch` are relative to the registers THIS subroutine names:
   a register that an earlier subroutine of the same application left live but that the present one
   does not mention is a legal scratch register for `_replace_constants` (open SDK finding F42,
@@ -42,6 +45,7 @@ import NetqasmVerif.Lemmas.AsmPure
 import NetqasmVerif.Lemmas.AsmExec
 import NetqasmVerif.Lemmas.AsmTextOperand
 import NetqasmVerif.Props.TextObligations
+import NetqasmVerif.Props.AsmTextObligations
 import NetqasmVerif.Props.AsmObligations
 namespace NQ.C03
 open NQ NQ.Asm
@@ -523,5 +527,85 @@ before `b ↦ X`, the text `$b$a` becomes `$bR0`, and `$bR0` is no longer a use 
 theorem macros_adjacent_counterexample :
     applyMacros [['$', 'b', '$', 'a']] [(['a'], ['R', '0']), (['b'], ['X'])] = [['$', 'b', 'R', '0']] ∧
     substTokenwise [(['a'], ['R', '0']), (['b'], ['X'])] ['$', 'b', '$', 'a'] = ['X', 'R', '0'] := by decide
+
+/-! ## text level: the whole front end -/
+
+theorem front_syms : AsmFront.FrontSyms Gen.syms := AsmTextObl.front_syms
+theorem text_syms_ok : AsmFront.textSymsOk Gen.syms = true := AsmTextObl.text_syms_ok
+
+/-- **`parse_render_program`.**  For every proto program `P` the front end can express (`CmdOk`:
+label names and label operands are variable names, mnemonics are `GenericInstr` names, any
+source operand form, any bracketed arguments), every version `v.w` and app id `n`, and every text
+made of the lines `# NETQASM v.w`, `# APPID n`, one rendered command per line, with blank or
+comment-only lines interleaved anywhere: `parse_text_protosubroutine` (model) returns exactly
+`(v.w, n, P)`. -/
+theorem parse_render_program (v w n : Nat) (P : List PCmd)
+    (hP : ∀ c ∈ P, AsmFront.CmdOk Gen.syms Gen.genericNames c) (lines : List (List Char))
+    (hpad : AsmFront.Padded Gen.syms.comment.toList (AsmFront.canonLines Gen.syms v w n P) lines)
+    (hnl : ∀ l ∈ lines, '\n' ∉ l) :
+    AsmFront.parseTextProto Gen.syms Gen.genericNames (AsmText.joinWith '\n' lines) =
+      .ok ⟨some ((v : Int), (w : Int)), some (n : Int), P⟩ :=
+  AsmFront.parseTextProto_padded front_syms text_syms_ok _ v w n P hP lines hpad hnl
+
+/-- the canonical text itself (no padding) -/
+theorem parse_render_program_canon (v w n : Nat) (P : List PCmd)
+    (hP : ∀ c ∈ P, AsmFront.CmdOk Gen.syms Gen.genericNames c) :
+    AsmFront.parseTextProto Gen.syms Gen.genericNames (AsmFront.canonText Gen.syms v w n P) =
+      .ok ⟨some ((v : Int), (w : Int)), some (n : Int), P⟩ :=
+  AsmFront.parseTextProto_canon front_syms text_syms_ok _ v w n P hP
+
+/-- **`parse_render_with_macros`** (body level): under the hypotheses of `macros_tokenwise`, if the
+token-wise reading of the body lines `B` is the rendering of `P`, `_create_subroutine` reads `P` from
+`_apply_macros(B, macros)`. -/
+theorem parse_render_with_macros (P : List PCmd) (hP : ∀ c ∈ P, AsmFront.CmdOk Gen.syms Gen.genericNames c)
+    (hne : P ≠ []) (B : List (List Char)) (hB : B ≠ []) (macros : List (List Char × List Char))
+    (hk : ∀ kv ∈ macros, ∀ c ∈ kv.1, AsmText.isIdent c = true)
+    (hv : ∀ kv ∈ macros, ∀ c ∈ AsmText.stripBraces kv.2, c ≠ '$')
+    (hs : AsmText.NoAdjacentUses (AsmText.tokenize (AsmText.joinWith '\n' B)))
+    (htok : AsmText.substTokenwise macros (AsmText.joinWith '\n' B) =
+      AsmText.joinWith '\n' (P.map (AsmFront.renderCmd Gen.syms))) :
+    AsmFront.parseBody Gen.syms Gen.genericNames (AsmText.applyMacros B macros) = .ok P :=
+  AsmFront.parseBody_macros front_syms text_syms_ok _ P hP hne B hB macros
+    (macros_tokenwise macros hk hv _ hs) htok
+
+/-- **`text_assemble_simulates`.**  Assembling TEXT preserves program meaning: the text of `P` is
+parsed into `P`, and every source run of `P` is reproduced by the assembled subroutine. -/
+theorem text_assemble_simulates {M : Type} {mc : Machine M} (hm : StdLike mc) (v w n : Nat) (P : List PCmd)
+    (hP : ∀ c ∈ P, AsmFront.CmdOk Gen.syms Gen.genericNames c) (lines : List (List Char))
+    (hpad : AsmFront.Padded Gen.syms.comment.toList (AsmFront.canonLines Gen.syms v w n P) lines)
+    (hnl : ∀ l ∈ lines, '\n' ∉ l) (hwf : LabelTargets mc P) {A : List Instr} {reserved : List Reg}
+    (hA : assemble Gen.vanillaRows Gen.excTable Gen.numScratch P reserved = .ok A)
+    {s s' t : State M} {i i' : Nat} (hrun : Steps mc P (s, i) (s', i'))
+    (hag : AgreeOutsideScratch Gen.numScratch P s t reserved) :
+    (∃ pr, AsmFront.parseTextProto Gen.syms Gen.genericNames (AsmText.joinWith '\n' lines) = .ok pr ∧ pr.cmds = P) ∧
+    ∃ t', Steps mc (A.map (embed Gen.vanillaRows)) (t, tpos Gen.excTable P i) (t', tpos Gen.excTable P i')
+      ∧ AgreeOutsideScratch Gen.numScratch P s' t' reserved :=
+  ⟨⟨_, parse_render_program v w n P hP lines hpad hnl, rfl⟩, assemble_simulates_run hm hwf hA hrun hag⟩
+
+/-- non-vacuity: the loop program is readable, and a padded text of it -/
+theorem nonvacuous_text :
+    (∀ c ∈ loopProg, AsmFront.CmdOk Gen.syms Gen.genericNames c) ∧
+    (match AsmFront.parseTextProto Gen.syms Gen.genericNames
+        "// a loop\n# NETQASM 1.0\n\n# APPID 2\nset R0 0\nLOOP:\n   \nadd R0 R0 1\n//x\nblt R0 3 LOOP\nEND:".toList with
+      | .ok pr => pr.cmds == loopProg && pr.version == some (1, 0) && pr.appId == some 2
+      | .error _ => false) = true := by
+  refine ⟨?_, by decide +kernel⟩
+  intro c hc
+  simp only [loopProg, List.mem_cons, List.mem_nil_iff, or_false] at hc
+  rcases hc with rfl | rfl | rfl | rfl | rfl
+  · exact ⟨⟨by decide, by decide, by decide +kernel⟩, by
+      intro o ho; simp only [List.mem_cons, List.mem_nil_iff, or_false] at ho
+      rcases ho with rfl | rfl <;> simp only [Text.pOpOk] <;> decide⟩
+  · show Text.isVarName _ = true; decide
+  · exact ⟨⟨by decide, by decide, by decide +kernel⟩, by
+      intro o ho; simp only [List.mem_cons, List.mem_nil_iff, or_false] at ho
+      rcases ho with rfl | rfl | rfl <;> simp only [Text.pOpOk] <;> decide⟩
+  · exact ⟨⟨by decide, by decide, by decide +kernel⟩, by
+      intro o ho; simp only [List.mem_cons, List.mem_nil_iff, or_false] at ho
+      rcases ho with rfl | rfl | rfl
+      · simp only [Text.pOpOk]; decide
+      · simp only [Text.pOpOk]
+      · simp only [Text.pOpOk]; decide +kernel⟩
+  · show Text.isVarName _ = true; decide
 
 end NQ.C03
